@@ -187,6 +187,18 @@ CLAIMED = {
          "backend together in set/delete/clear and flushes with write-back disabled. Equivalence over histories and the dbm "
          "backend are NOT decided.",
          "Trusted: CPython's ast parser, sa/cfg.py, sa/props/c20.py."),
+ "C09": ("two-program conformance: set comparison of message types/fields, dominance of registrations and loaders (typestate), pairing of serialisers",
+         "Does NOT decide end-to-end value equality (that composes C01/C03 with this). Decides the relation between the two "
+         "programs' source texts: message types emitted by one side are dispatched by the other (constants resolved, pairwise "
+         "distinct, INIT handshake on both sides); each client request registers its future under the reply type before the "
+         "await that sends the request and the server replies with exactly that type (table shared with C10); fields read are "
+         "fields written, pickle.dumps/loads paired at every hop; every dereference of a lazily loaded attribute (scheme, key, "
+         "index, config object, module loader) in both Service classes is dominated by the loader that assigns it - which is "
+         "what makes a re-created client or restarted server equivalent to the original object - and each loader reads the "
+         "artifact its writer wrote and deserialises with the class family that serialised it; both sides build the scheme from "
+         "the uploaded config dict; keyword/identifier encodings agree.",
+         "Trusted: CPython's ast parser, sa/effects.py, sa/cfg.py, sa/props/c09.py. The websocket library, timing and "
+         "concrete payload values are outside the analysis."),
 }
 NA_REASON = "check under construction in this session (see DESIGN.md section 3); not yet registered"
 NA = {}
